@@ -8,19 +8,19 @@ EXPLANATION = ('Theorems about the Lean engine model `Core3` (Core + no_eq + unt
                'reported an untracked read and that is not yet verified in the current revision is re-executed (`exec q` is the FIRST event) '
                'by the first fetch or maybe_changed_after that reaches it — for ANY state and program (`c04_reexec_fetch`, `c04_reexec_mca`); '
                'such a memo has durability LOW and is never shallow-verified or evicted (`c04_never_shallow`, `c04_not_evicted`); results '
-               'reflect the cell values of the revision (`c04_results_partial`: soundness of Core3 for every history with cell writes, for '
-               'programs without lru kinds). The Core3 model is tied to salsa by exact comparison of values and WillExecute / '
+               'reflect the cell values of the revision (`c04_results`: soundness of Core3 for every history with cell writes, lru kinds '
+               'and evictions included — stage S3b, invariant `InvE`). The Core3 model is tied to salsa by exact comparison of values and WillExecute / '
                'DidValidateMemoizedValue sequences on generated programs with cells, no_eq and lru kinds, lrucap / evict ops.')
-ASSUMPTIONS = ['cell changes are followed by a new revision (as the property states)', 'the results theorem excludes lru kinds (stage S3b open); those rest on the oracle']
+ASSUMPTIONS = ['cell changes are followed by a new revision (as the property states)', '`c04_dependents_reused` (dependents of an untracked query whose value did not change are reused) is checked by the event comparison, not yet a theorem']
 
 def ties(ctx):
-    n = 1500 if ctx.tier == 'quick' else 100000
+    n = 8000 if ctx.tier == 'quick' else 100000
     return [run_seq(ctx, 'core3', n, model='core3', corpus='CORE3-SEQ')]
 
 def search(ctx, reason):
     t = run_seq(ctx, 'core3', 300000, seed_offset=95, tag='search-core3')
     for f in t.failures:
-        if f.kind == 'oracle':
+        if f.kind == 'oracle' and f.key not in listed_keys():
             return f
     return None
 
